@@ -53,7 +53,8 @@ type (
 	}
 
 	headResponse struct {
-		size int
+		size  int
+		wrote bool // 是否已经确定状态码
 		http.ResponseWriter
 	}
 )
@@ -358,7 +359,15 @@ func (p *Prefix[T]) Resource(pattern string, m ...types.Middleware[T]) *Resource
 // Router 返回与当前资源关联的 [Router] 实例
 func (r *Resource[T]) Router() *Router[T] { return r.router }
 
+func (resp *headResponse) WriteHeader(status int) {
+	if !resp.wrote { // 与 GET 相同，输出内容之后再指定的状态码无效。
+		resp.wrote = true
+		resp.ResponseWriter.WriteHeader(status)
+	}
+}
+
 func (resp *headResponse) Write(bs []byte) (int, error) {
+	resp.wrote = true // GET 请求在此时会隐式地输出 200
 	l := len(bs)
 	resp.size += l
 
